@@ -23,6 +23,7 @@ together with exclude_last) stay in the batch (they must not disturb their neigh
 own rows are not judged.
 """
 import itertools
+import json
 import math
 import random
 import warnings
@@ -378,6 +379,11 @@ INEXACT = [(1.1, 0.9, 0.9), (1.1, 0.7, 0.7), (0.9, 0.9, 1.1), (0.7, 1.1, 0.7)]
 def cases_inexact(ctx):
     yield from (dict(c) for c in REGRESSIONS["C03.oc.inexact_costs"].values())
     yield from _exhaustive(4 if ctx.quick else 5, 2, INEXACT, 64)
+    if not ctx.quick:  # longer references, where KF-C03-3 (lost float ties) lives: anything outside that class is still a violation
+        rng = random.Random(ctx.seed * 104729 + 9)
+        for _ in range(600):
+            yield {"ref": [[rng.randrange(3) for _ in range(rng.randint(5, 7))]], "hyp": [[rng.randrange(3) for _ in range(rng.randint(3, 7))]], "eos": None, "include_eos": False,
+                   "batch_first": False, "costs": list(rng.choice(INEXACT + [(1.0, 0.9, 0.9), (0.9, 0.9, 1.0)])), "exclude_last": False, "padding": -100}
 
 
 def cases_mask(ctx):
@@ -410,7 +416,25 @@ def cases_loss(ctx):
 CHECKERS = {"C03.mask.row_minima": check_mask, "C03.oc.set_semantics": check_oc, "C03.loss.formula": check_loss, "C03.oc.inexact_costs": check_oc}
 
 FINDINGS = []      # KF-C03-1 and KF-C03-2 were repaired in /repo (a01e688, a715bab); their witnesses are kept as named regression cases
-KNOWN_MATCH = {}
+def _kf_float_tie(case, msg):
+    """KF-C03-3: a cost that is not a dyadic rational, a reference of five or more tokens, and the library lists a proper SUBSET of the
+    oracle's tokens (a tie between differently ordered float32 sums is lost); extra or wrong tokens are never this finding"""
+    import re
+
+    try:
+        costs = [float(c) for c in case["costs"]]
+        if all((c * 1024) == int(c * 1024) for c in costs) or max(len(r) for r in case["ref"]) < 5:
+            return False
+        m = re.search(r"lists (\[[^\]]*\]), distance-preserving next tokens are (\[[^\]]*\])", msg or "")
+        if not m:
+            return False
+        got, want = set(json.loads(m.group(1))), set(json.loads(m.group(2)))
+        return got < want
+    except Exception:
+        return False
+
+
+KNOWN_MATCH = {"KF-C03-3": _kf_float_tie}
 
 _W1 = {"ref": [[]], "hyp": [[0]], "eos": None, "include_eos": False, "batch_first": False, "costs": [1.0, 1.0, 1.0], "exclude_last": False, "padding": -100}
 _W2 = {"ref": [[0, 0, 0, 1]], "hyp": [[0, 0, 1]], "eos": None, "include_eos": False, "batch_first": False, "costs": [1.1, 0.9, 0.9], "exclude_last": False, "padding": -100}
